@@ -284,7 +284,7 @@ fn exact_f64_integer(f: f64) -> Option<BigUint> {
     let e = ((b >> 52) & 0x7ff) as i64;
     let frac = b & ((1u64 << 52) - 1);
     if e == 0 {
-        return if frac == 0 { Some(BigUint::zero()) } else { None };
+        return if frac == 0 { Some(BigUint::from(0u8)) } else { None };
     }
     let mant = BigUint::from(frac | (1u64 << 52));
     let sh = e - 1075;
@@ -348,8 +348,8 @@ fn ref_json_number_literal(doc: &[u8], bits: usize) -> Option<Ref> {
     // value = digits * 10^(exp - frac_len)
     let digits = BigUint::parse_bytes(format!("{int_part}{frac_part}").as_bytes(), 10)?;
     let e10 = exp - frac_part.len() as i64;
-    let value = if digits.is_zero() {
-        Some(BigUint::zero())
+    let value = if big::is_zero(&digits) {
+        Some(BigUint::from(0u8))
     } else if e10 >= 0 {
         if e10 > 5000 {
             return Some(Ref::Reject("overrange"));
@@ -360,11 +360,11 @@ fn ref_json_number_literal(doc: &[u8], bits: usize) -> Option<Ref> {
             return None;
         }
         let d = BigUint::from(10u8).pow((-e10) as u32);
-        if (&digits % &d).is_zero() { Some(digits / d) } else { None }
+        if big::is_zero(&(&digits % &d)) { Some(digits / d) } else { None }
     };
     Some(match value {
         None => Ref::Reject("wrong-type"),
-        Some(v) if neg && !v.is_zero() => Ref::Reject("negative"),
+        Some(v) if neg && !big::is_zero(&v) => Ref::Reject("negative"),
         Some(v) => rv(&v, bits),
     })
 }
